@@ -635,7 +635,20 @@ def check(prop, tier, only=None, keep=False):
                 # end (measured: 8 GB for 36 quick obligations, 17 GB for 40 thorough ones)
                 chunk = int(os.environ.get("VERIF_CHUNK", "40" if tier == "quick" else "12"))
                 nb = max(1, (len(pu) + chunk - 1) // chunk)
-                queue = [(pu[i::nb], False) for i in range(nb)]
+                if tier == "quick":
+                    queue = [(pu[i::nb], False) for i in range(nb)]
+                else:
+                    # a batch lasts as long as its slowest obligation: put obligations of similar
+                    # (recorded) duration into the same batch, longest first
+                    _mt, _tt = measured_times(), thorough_times()
+                    def _dur(u):
+                        a = _mt.get(u["name"])
+                        if a is not None and a < 9999:
+                            return a
+                        return (_tt.get(u["name"]) or {}).get("wall_s") or 60 * u.get("cost", 1)
+                    pu.sort(key=lambda u: -_dur(u))
+                    size = (len(pu) + nb - 1) // nb
+                    queue = [(pu[i:i + size], False) for i in range(0, len(pu), size)]
                 bi = 0
                 while queue:
                     batch, is_retry = queue.pop(0)
